@@ -504,13 +504,18 @@ def run_input_stream(W, rec):
                 if data != exp:
                     rec.violation("C09/terminated-stream-not-passed-through", f"{data!r}; {case}", case, monitor="decision-table")
             else:
-                if got_exc is None and len(body) > lim:
-                    rec.violation("C09/max-limit-drain-silently-truncates", f"body of {len(body)} bytes, max_content_length {lim}: read() returned {data!r} without RequestEntityTooLarge; {case}", case, monitor="decision-table")
-                    continue
                 if got_exc is None and (len(data) > lim or not body.startswith(data)):
                     rec.violation("C09/max-exceeded-on-terminated-stream", f"{data!r}; {case}", case, monitor="decision-table")
+                    continue
                 if inp.pos > lim:
                     rec.violation("C09/over-read-underlying", f"consumed {inp.pos} > max {lim}; {case}", case, monitor="byte-accounting")
+                    continue
+                if got_exc is None and len(body) > lim:
+                    # the recorded finding is this one mechanism: exactly the first `lim` bytes handed out, no more taken,
+                    # and no error (anything longer, or any byte beyond the maximum taken, was reported above)
+                    key = "C09/max-limit-drain-silently-truncates" if data == body[:lim] and lim > 0 else "C09/over-long-terminated-body-accepted"
+                    rec.violation(key, f"body of {len(body)} bytes, max_content_length {lim}: read() returned {data!r} without RequestEntityTooLarge; {case}", case, monitor="decision-table")
+                    continue
             continue
         if isinstance(declared, int):
             if declared > len(body):
